@@ -71,12 +71,21 @@ def validate(module: str, tag: str, traces: list, *, constants=None, workers="au
     return verdicts, res
 
 
+SAT = 2 ** 30
+
+
 def q(v: float, scale: float = 2 ** 20) -> int:
-    """Quantise a float to the Q-format integer round(v*scale), refusing non-finite / out of range."""
+    """Quantise a float to the Q-format integer round(v*scale).
+
+    Values that do not fit (or are not finite) saturate at +-2^30: on a correct tree the recorders'
+    normalisations keep every observation far below that, so a saturated value can only make a clause
+    fail (a grossly wrong observation must be a verdict, not a harness crash)."""
     import math
     if not math.isfinite(v):
-        raise ValueError(f"cannot quantise {v!r}")
-    r = int(round(v * scale))
-    if abs(r) > MAXINT:
-        raise ValueError(f"quantised value out of range: {v!r} * {scale}")
-    return r
+        return SAT
+    r = v * scale
+    if r >= SAT:
+        return SAT
+    if r <= -SAT:
+        return -SAT
+    return int(round(r))
